@@ -42,7 +42,8 @@ class Monitor:
         self.events = 0
         self.stop_point_reached = None
         self.starts_after_stop = 0
-        self.completed_view = set()   # trials whose last result was answered STOP while the loop already saw status completed
+        self.completed_view = set()
+        self.cfg = {}   # trials whose last result was answered STOP while the loop already saw status completed
 
     def v(self, prop, cond, code, msg=""):
         if prop in self.props and not cond:
@@ -102,7 +103,7 @@ class Monitor:
         got = self.delivered.setdefault((tid, run), [])
         self.v("C02", seq == len(got), "C02.gap-or-duplicate", "trial %d run %d: delivered seqs %s, now %d" % (tid, run, got, seq))
         got.append(seq)
-        self.deliveries.append((tid, run, seq, decision))
+        self.deliveries.append((tid, run, seq, decision, dict(self.cfg.get(tid, {})), rid))
         self.sym.event("deliver t%d run%d #%d -> %s" % (tid, run, seq, decision))
         if decision == SchedulerDecision.PAUSE:
             self.state[tid] = "pausing"
@@ -155,6 +156,7 @@ class NDS(TrialScheduler):
         self.max_pause = max_pause
         self.npause = {}
         self.inject_at = 0          # raise from the inject_at-th scheduler call (0 = never)
+        self.new_config_on_resume = False
         self.paused = []
         self.n = 0
         self.decisions = decisions
@@ -170,6 +172,8 @@ class NDS(TrialScheduler):
         self._maybe_raise()
         if self.paused and self.sym.bool("resume_%d" % self.n):
             t = self.paused.pop(0)
+            if self.new_config_on_resume and self.sym.bool("newcfg_%d" % self.n):
+                return TrialSuggestion.resume_suggestion(t, config={"x": 100 + self.n})
             return TrialSuggestion.resume_suggestion(t)
         if trial_id >= self.T:
             return None
@@ -350,11 +354,15 @@ class ScriptBackend(TrialBackend):
     # ---- abstract hooks of TrialBackend ---------------------------------------------------------
     def start_trial(self, config, checkpoint_trial_id=None):
         tr = super().start_trial(config, checkpoint_trial_id)
+        self.mon.cfg[tr.trial_id] = dict(config)
         self.mon.b_start(tr.trial_id, self)
         return tr
 
     def resume_trial(self, trial_id, new_config=None):
         self.mon.b_resume(trial_id, self)
+        if new_config is not None:
+            self.mon.cfg[trial_id] = dict(new_config)
+            self.sym.goal("config-changed-on-resume")
         return super().resume_trial(trial_id, new_config)
 
     def _schedule(self, trial_id, config):
@@ -395,7 +403,9 @@ class ScriptBackend(TrialBackend):
         self.exited[trial_id] = True
 
     def _resume_trial(self, trial_id):
-        pass
+        if self.seq.get((trial_id, self.run[trial_id]), 0) > 0 or self.run[trial_id] > 0:
+            self.mon.v("C20", trial_id in self.has_ckpt, "C20.resume-without-checkpoint",
+                       "trial %d is resumed but its checkpoint was deleted" % trial_id)
 
     def _all_trial_results(self, trial_ids):
         out = []
@@ -415,6 +425,12 @@ class ScriptBackend(TrialBackend):
 
     def delete_checkpoint(self, trial_id):
         if trial_id in self.has_ckpt:
+            st = self.mon.state.get(trial_id)
+            self.mon.v("C20", self.delete_checkpoints, "C20.deleted-although-disabled", "delete_checkpoint(%d) with delete_checkpoints=False" % trial_id)
+            self.mon.v("C20", st not in ("run", "pausing") or self.mon.tuning_over, "C20.checkpoint-of-running-trial-deleted",
+                       "checkpoint of trial %d deleted while it is %s" % (trial_id, st))
+            if st == "paused" and not self.mon.tuning_over:
+                self.sym.goal("paused-checkpoint-removed")
             self.sym.event("delete checkpoint t%d" % trial_id)
             self.has_ckpt.discard(trial_id)
             self.deleted_log = getattr(self, "deleted_log", [])
@@ -449,6 +465,7 @@ class LoopCallback(TunerCallback):
         self.max_failures = max_failures
         self.wait = wait
         self.fetched = 0
+        self.fetched_list = []
         self.stop_loop = None
 
     def on_tuning_start(self, tuner):
@@ -462,6 +479,7 @@ class LoopCallback(TunerCallback):
 
     def on_fetch_status_results(self, trial_status_dict, new_results):
         self.fetched += len(new_results)
+        self.fetched_list.extend(new_results)
 
     def on_trial_result(self, trial, status, result, decision):
         if decision == SchedulerDecision.STOP and status == Status.completed:
